@@ -176,10 +176,6 @@ Example o4_ex_run :
 Proof. vm_compute. repeat split. Qed.
 
 Lemma o4_ex_WF : WF o4_ex_sc o4_ex_c0.
-Proof.
-  unfold WF, o4_ex_sc, o4_ex_c0. cbn.
-  split; [intros _; repeat constructor; cbn; timeout 20 (intuition discriminate)|].
-  split; [constructor|]. split; [intros c []|]. split; [intros c c' []|]. split; [intros n l _ H; discriminate H|discriminate].
-Qed.
+Proof. apply wf_b_spec. vm_compute. reflexivity. Qed.
 
 Print Assumptions monitor_C04_obs.
